@@ -117,10 +117,34 @@ fn make_event(m: &sim::Model, inv: &crate::maps::Inv, rng: &mut Rng, kind: u64, 
             banks.insert(0, (nm.clone(), a.encode_short()));
             "suppressed packet + long packet of the same channel"
         }
-        _ => {
+        9 => {
             // duplicated TRG with a different timestamp: must fail whichever comes first
             banks.insert(0, event::trg_bank(5));
             "two TRG banks"
+        }
+        10 => {
+            // a PWB chunk present twice with different, individually valid content
+            let k = banks.iter().position(|b| b.0.starts_with("PC")).unwrap();
+            let c = alpha_g_detector::padwing::Chunk::try_from(&banks[k].1[..]).unwrap();
+            let mut payload = c.payload().to_vec();
+            let n = payload.len();
+            for x in payload[n / 2..].iter_mut().take(40) {
+                *x = x.wrapping_add(3);
+            }
+            let twin = crate::enc::Chunk { device_id: c.board_id().device_id(), packet_sequence: 9, channel_sequence: 9, channel_id: banks[k].1[10], flags: banks[k].1[11], chunk_id: c.chunk_id(), payload };
+            let name = banks[k].0.clone();
+            banks.push((name, twin.encode()));
+            "PWB chunk present twice with different content"
+        }
+        _ => {
+            // a wire bank present twice, both long, different content
+            let w = *wires.keys().next().unwrap();
+            let mut s = wires[&w].clone();
+            for x in s.iter_mut().skip(150).take(30) {
+                *x -= 200;
+            }
+            banks.push(event::wire_bank(inv, w, s));
+            "wire bank present twice with different content"
         }
     };
     (banks, what)
@@ -143,7 +167,7 @@ fn run(ctx: &mut Ctx) {
         }
         ctx.cur_case = i;
         let mut rng = ctx.rng_for("events", i);
-        let (banks, what) = make_event(&m, &inv, &mut rng, i % 10, i);
+        let (banks, what) = make_event(&m, &inv, &mut rng, i % 12, i);
         let groups = {
             let mut g: Vec<&str> = banks.iter().filter(|b| b.0.starts_with("PC")).map(|b| &b.0[..]).collect();
             g.sort();
@@ -151,6 +175,13 @@ fn run(ctx: &mut Ctx) {
             g.len()
         };
         let nw = banks.iter().filter(|b| b.0.starts_with('C')).count();
+        // state left behind by a *failing* build must not leak into the next one: before the identity-order run of
+        // odd shards, build an event that fails half-way (valid chunks first, then a broken wire bank)
+        if shard % 2 == 1 {
+            let mut poison: Banks = banks.iter().filter(|b| b.0.starts_with("PC")).take(6).cloned().collect();
+            poison.push(("C09A".into(), vec![1, 3, 0, 0]));
+            let _ = guard(|| digest(u32::MAX, &poison));
+        }
         ctx.eval();
         let d0 = match guard(|| digest(u32::MAX, &banks)) {
             Ok(d) => d,
